@@ -97,6 +97,7 @@ class Mgr:
         except Exception:
             self.names_registered = False
         # mark the stock instances so that a dispatched call reveals which object executed it
+        self.static_attrs = set()
         self.marked = {}
         self.reset()
         for k in self.stock:
@@ -171,14 +172,25 @@ class Mgr:
         wrong = []
         funs = list(dict.fromkeys(getattr(m, "_functions", [])))
         attrs = [a for a in dict.fromkeys(getattr(m, "_attributes", [])) if a not in funs]
+        top = vars(self.mod) if not self.tenalg else {}
         for name in funs + attrs:
             _ACCESS.log = log = []
             try:
                 if name in funs:
                     getattr(self.mod, name)()        # tensorly.<name> / tensorly.tenalg.<name>
+                elif name in top:
+                    # tensorly/__init__.py binds this ATTRIBUTE statically at import (int64, float64, pi, ...): it does not
+                    # follow the backend.  C17 speaks of dispatched functions: recorded, not judged; swept on the manager
+                    self.static_attrs.add(name)
+                    getattr(m, name)
                 else:
-                    getattr(m, name)                 # attributes are dispatched on the manager module only: tensorly/__init__.py
-                    #                                  binds int64, float64, pi, ... statically at import (not functions; out of scope)
+                    getattr(self.mod, name)          # resolved through the module __getattr__: must follow the backend
+                    if self.mod is not m:
+                        hit0 = [o for (o, n) in log if n == name]
+                        if not hit0 or hit0[0] is not expected:
+                            wrong.append("tensorly." + name)
+                        del log[:]
+                    getattr(m, name)
             except Exception:
                 pass
             finally:
@@ -186,7 +198,7 @@ class Mgr:
             hit = [o for (o, n) in log if n == name]
             if not hit or hit[0] is not expected:
                 wrong.append(name)
-        if len(wrong) == len(funs) + len(attrs):
+        if len(wrong) >= len(funs) + len(attrs):
             return []          # no look-up was logged at all: the dispatcher does not go through attribute access of the
             #                    instance (a refactoring the logging cannot follow); the marker-method probes still apply
         return wrong
@@ -248,10 +260,12 @@ def observe_mode(mode, full=False):
 
 # ----------------------------------------------------------------------------- threads
 class Stepper:
-    """line-granular turn taking (sys.settrace) between threads that each execute ONE manager call: every entry
-    of a schedule lets the named thread run up to the next source line of the traced files"""
+    """line- or bytecode-granular turn taking (sys.settrace, f_trace_opcodes) between threads that each execute ONE
+    manager call: every entry of a schedule lets the named thread run up to the next source line / the next bytecode
+    of the traced files"""
 
-    def __init__(self, tids, files):
+    def __init__(self, tids, files, opcodes=False):
+        self.opcodes = opcodes                    # turn taking at every BYTECODE of the traced files instead of every line
         self.go = {t: threading.Semaphore(0) for t in tids}
         self.done_line = threading.Semaphore(0)
         self.finished = {t: False for t in tids}
@@ -259,15 +273,21 @@ class Stepper:
         self.lines = 0
 
     def tracer(self, tid):
+        unit = "opcode" if self.opcodes else "line"
+
         def local(frame, event, arg):
-            if event == "line":
-                self.done_line.release()          # about to execute a line: hand the turn back
+            if event == unit:
+                self.done_line.release()          # about to execute a line / a bytecode: hand the turn back
                 if not self.go[tid].acquire(timeout=TIMEOUT):
                     raise HarnessStuck(f"traced thread {tid} was never scheduled again")
             return local
 
         def glob(frame, event, arg):
-            return local if frame.f_code.co_filename in self.files else None
+            if frame.f_code.co_filename not in self.files:
+                return None
+            if self.opcodes:
+                frame.f_trace_opcodes = True
+            return local
         return glob
 
     def start(self, tid):
@@ -505,7 +525,8 @@ def drive_micro(m, scenario):
     """scenario = (setup, opA, opB, post, schedule) on manager m; threads: 0 main (passive, holds the import-time
     selection), 1 and 2 (actors), 3 (passive, no selection).  setup / post run one operation at a time; opA (thread 1)
     and opB (thread 2) run concurrently under a line-granular schedule.  Returns (resA, resB, obs, post_steps, lines)."""
-    setup, opA, opB, post, schedule = scenario
+    setup, opA, opB, post, schedule = scenario[:5]
+    opcodes = len(scenario) > 5 and scenario[5] == "opcode"
     nthreads = 4
     workers = {}
     for t in range(1, nthreads):
@@ -530,7 +551,7 @@ def drive_micro(m, scenario):
     try:
         for op in setup:
             atomic(op)
-        st = Stepper([opA[1], opB[1]], traced_files())
+        st = Stepper([opA[1], opB[1]], traced_files(), opcodes)
         for op in (opA, opB):
             workers[op[1]].q.put(cmd_of(op, st))
         st.run(schedule)
@@ -559,7 +580,7 @@ def drive_micro(m, scenario):
 
 def random_scenario(rng, m):
     """set-up (0-3 valid operations of threads 1-3), one operation each for threads 1 and 2, the exits that close
-    what is open afterwards, a line schedule"""
+    what is open afterwards, a line- or bytecode-granular schedule"""
     M = Mgr.get(m)
     valid = [("o", k) for k in range(len(M.pool))] + [("n", k) for k in M.names if M.sel_valid(("n", k))]
     bad = [("n", k) for k in M.names if not M.sel_valid(("n", k))] + [("f", 0)]
@@ -589,12 +610,35 @@ def random_scenario(rng, m):
     for t in order:
         post.append(("exit", t, m, rng.random() < 0.3))
     style = rng.random()
-    if style < 0.5:       # one thread runs k lines, the other completes, the first resumes
+    gran = "opcode" if rng.random() < 0.5 else "line"
+    k, n = (14, 40) if gran == "line" else (70, 200)
+    if style < 0.5:       # one thread runs k steps, the other completes, the first resumes
         a, b = rng.choice([(1, 2), (2, 1)])
-        schedule = [a] * rng.randint(0, 14) + [b] * 40
-    else:
-        schedule = [rng.choice([1, 2]) for _ in range(40)]
-    return (tuple(setup), opA, opB, tuple(post), tuple(schedule))
+        schedule = [a] * rng.randint(0, k) + [b] * n
+    elif style < 0.75 or gran == "line":
+        schedule = [rng.choice([1, 2]) for _ in range(n)]
+    else:                 # bursts
+        schedule = []
+        while len(schedule) < n:
+            schedule += [rng.choice([1, 2])] * rng.randint(1, 25)
+    return (tuple(setup), opA, opB, tuple(post), tuple(schedule), gran)
+
+
+def systematic_scenarios(m):
+    """canonical pairs of NON-local calls, one thread stopped after k = 0..59 bytecodes while the other runs to
+    completion: sweeps every window inside set_backend / backend_context entry / exit at bytecode granularity"""
+    A, B = ("o", 0), ("o", 1)
+    pairs = [((), ("set", 1, m, A, False), ("set", 2, m, B, False), ()),
+             ((), ("enter", 1, m, A, False), ("set", 2, m, B, False), (("exit", 1, m, False),)),
+             ((("set", 2, m, ("o", 2), True),), ("enter", 1, m, A, False), ("enter", 2, m, B, False),
+              (("exit", 2, m, False), ("exit", 1, m, True))),
+             ((("enter", 1, m, ("o", 3), False),), ("exit", 1, m, False), ("set", 2, m, B, False), ())]
+    out = []
+    for k in range(60):
+        for (setup, a, b, post) in pairs:
+            first, second = (1, 2) if (k % 2 == 0) else (2, 1)
+            out.append((setup, a, b, post, tuple([first] * k + [second] * 200), "opcode"))
+    return out
 
 
 def op_digits(op):
@@ -605,7 +649,7 @@ def op_digits(op):
 
 def encode_micro(m, scenario, result):
     """digit stream decoded by Corr/C17.v `decode_m` (leading digit 3)"""
-    setup, opA, opB, post, schedule = scenario
+    setup, opA, opB, post, schedule = scenario[:5]
     resA, resB, obs, steps, _ = result
     ds = [3, m, 4, 1, len(setup)]
     for op in setup:
@@ -647,6 +691,167 @@ def predicates_micro(m, scenario, result):
         if op[0] in ("set", "enter") and (res == "done") != M.sel_valid(op[3]):
             fails.append(("C17_rejection", -1, f"concurrent {op[0]} of selector {op[3]} by thread {op[1]} ended with {res}"))
     return fails
+
+
+# ----------------------------------------------------------------------------- programs of acts from the source (ast)
+# The micro-step programs of Model/Backend.v are a reading of set_backend / backend_context / current_backend.  Here the
+# CURRENT source is translated (ast) into the same vocabulary of acts; Corr/C17.v (leading digit 4) checks that the
+# extracted programs obey the effect-point discipline the reduction theorem needs and that, run without interruption,
+# they do what the model's programs do on a family of states.  A source shape the translator does not know is
+# reported in the evidence notes and skipped - never a verdict.
+import ast, inspect, textwrap
+
+
+class Unsupported(Exception):
+    pass
+
+def _fn_ast(f):
+    src = textwrap.dedent(inspect.getsource(f))
+    mod = ast.parse(src)
+    fn = mod.body[0]
+    assert isinstance(fn, (ast.FunctionDef,)), type(fn)
+    return fn
+
+def _attr_chain(node):
+    """cls._THREAD_LOCAL_DATA.backend -> ['cls', '_THREAD_LOCAL_DATA', 'backend']"""
+    out = []
+    while isinstance(node, ast.Attribute):
+        out.append(node.attr)
+        node = node.value
+    if isinstance(node, ast.Name):
+        out.append(node.id)
+        return out[::-1]
+    return None
+
+def _reads_shared(expr):
+    return any(_attr_chain(n) == ["cls", "_backend"] for n in ast.walk(expr) if isinstance(n, ast.Attribute))
+
+def set_program(fn, local, src_name, from_reg):
+    """acts of set_backend after the selection has resolved; src_name: the name holding the backend in this function"""
+    K = {"tls": 2 if from_reg else 1, "shared": 5 if from_reg else 4}
+    acts = []
+
+    def walk(stmts):
+        for st in stmts:
+            if isinstance(st, ast.Expr) and isinstance(st.value, ast.Constant):
+                continue                                   # docstring
+            if isinstance(st, ast.If):
+                t = st.test
+                if any(isinstance(n, ast.Call) and getattr(n.func, "id", None) == "isinstance" for n in ast.walk(t)):
+                    continue                               # the resolution of names: before any write (checked dynamically)
+                neg = isinstance(t, ast.UnaryOp) and isinstance(t.op, ast.Not)
+                core = t.operand if neg else t
+                if isinstance(core, ast.Name) and core.id == "local_threadsafe":
+                    take = (not local) if neg else local
+                    walk(st.body if take else st.orelse)
+                    continue
+                raise Unsupported("if " + ast.unparse(t))
+            if isinstance(st, ast.Assign) and len(st.targets) == 1:
+                ch = _attr_chain(st.targets[0])
+                val = st.value
+                if ch == ["cls", "_THREAD_LOCAL_DATA", "backend"]:
+                    if isinstance(val, ast.Name) and val.id == src_name:
+                        acts.append(K["tls"]); continue
+                    if _reads_shared(val):
+                        acts.extend([9 + 16, 2]); continue    # a read of the shared default, then the write from it
+                    raise Unsupported(ast.unparse(st))
+                if ch == ["cls", "_default_backend"]:
+                    acts.append(3); continue
+                if ch == ["cls", "_backend"]:
+                    if isinstance(val, ast.Name) and val.id == src_name:
+                        acts.append(K["shared"] + 16); continue
+                    raise Unsupported(ast.unparse(st))
+                raise Unsupported(ast.unparse(st))
+            if isinstance(st, ast.Return) and st.value is None:
+                return
+            raise Unsupported(ast.unparse(st)[:80])
+    walk(fn.body)
+    if not any(a >= 16 for a in acts):                     # no shared access: the (first) write of the thread-local slot is the effect point
+        for i, a in enumerate(acts):
+            if a in (1, 2):
+                acts[i] = a + 16
+                break
+    return acts
+
+def _set_call(st, first_arg):
+    """cls.set_backend(<first_arg>, [local_threadsafe=...]) -> flag expression | 'default' ; None if not such a call"""
+    if not (isinstance(st, ast.Expr) and isinstance(st.value, ast.Call)):
+        return None
+    c = st.value
+    if _attr_chain(c.func) != ["cls", "set_backend"] or not c.args or not isinstance(c.args[0], ast.Name) or c.args[0].id != first_arg:
+        return None
+    flag = "default"
+    if len(c.args) > 1:
+        flag = c.args[1]
+    for kw in c.keywords:
+        if kw.arg == "local_threadsafe":
+            flag = kw.value
+    return flag
+
+def _flag_value(flag, local):
+    if flag == "default":
+        return False
+    if isinstance(flag, ast.Name) and flag.id == "local_threadsafe":
+        return local
+    if isinstance(flag, ast.Constant) and isinstance(flag.value, bool):
+        return flag.value
+    raise Unsupported("flag " + ast.unparse(flag))
+
+def source_programs(manager_cls):
+    """[set, enter, exit-normal, exit-exception] for local_threadsafe False, then True (act codes of Corr/C17.v dec_act)"""
+    f_set = _fn_ast(manager_cls.set_backend.__func__)
+    f_cur = _fn_ast(manager_cls.current_backend.__func__)
+    ctx = manager_cls.backend_context.__func__
+    f_ctx = _fn_ast(getattr(ctx, "__wrapped__", ctx))
+    cur_src = ast.unparse(f_cur)
+    cur_ok = "_THREAD_LOCAL_DATA" in cur_src and "cls._backend" in cur_src and cur_src.count("cls._backend") == 1
+    out = []
+    for local in (False, True):
+        out.append(set_program(f_set, local, "backend", False) + [10])
+        enter, exit_n, exit_x = [], None, None
+        saved = None
+        for st in f_ctx.body:
+            if isinstance(st, ast.Expr) and isinstance(st.value, ast.Constant):
+                continue
+            if isinstance(st, ast.Assign) and len(st.targets) == 1 and isinstance(st.targets[0], ast.Name) \
+                    and isinstance(st.value, ast.Call) and _attr_chain(st.value.func) == ["cls", "current_backend"]:
+                saved = st.targets[0].id
+                enter.append(0 + 16 if cur_ok else 9 + 16)
+                continue
+            fl = _set_call(st, "backend")
+            if fl is not None:
+                enter += set_program(f_set, _flag_value(fl, local), "backend", False)
+                continue
+            if isinstance(st, ast.Try):
+                if not (len(st.body) == 1 and isinstance(st.body[0], ast.Expr) and isinstance(st.body[0].value, ast.Yield)):
+                    raise Unsupported("try body " + ast.unparse(st.body[0])[:60])
+                enter += [7 if local else 6, 10]
+
+                def restore(stmts):
+                    acts = [8]
+                    for s2 in stmts:
+                        if isinstance(s2, ast.Raise):
+                            continue
+                        fl2 = _set_call(s2, saved)
+                        if fl2 is None:
+                            raise Unsupported("exit: " + ast.unparse(s2)[:60])
+                        acts += set_program(f_set, _flag_value(fl2, local), "backend", True)
+                    return acts + [10]
+                exit_n = restore(list(st.orelse) + list(st.finalbody))
+                hb = list(st.handlers[0].body) if st.handlers else []
+                exit_x = restore(hb + list(st.finalbody))
+                continue
+            raise Unsupported("backend_context: " + ast.unparse(st)[:60])
+        if saved is None or exit_n is None:
+            raise Unsupported("backend_context has no save / try-yield")
+        out += [enter, exit_n, exit_x]
+    return out
+
+def program_digits(progs):
+    ds = []
+    for p in progs:
+        ds += [len(p)] + p
+    return ds
 
 
 # ----------------------------------------------------------------------------- histories
@@ -952,7 +1157,7 @@ def _micro_job(m, scenarios):
         nlines += r[4]
         fails = predicates_micro(m, sc, r)
         out.append((pack(encode_micro(m, sc, r)), fails[0] if fails else None,
-                    [f"{'tenalg' if m else 'backend'}.concurrent {sc[1][0]}|{sc[2][0]}:{r[0]}|{r[1]}"]))
+                    [f"{'tenalg' if m else 'backend'}.concurrent({sc[5] if len(sc) > 5 else 'line'}) {sc[1][0]}|{sc[2][0]}:{r[0]}|{r[1]}"]))
     for M in Ms:
         M.reset()
     return out, None
@@ -1010,7 +1215,8 @@ def make_groups(tier, rng):
     groups.append((2, True, 3, [random_history(rng, [0, 1, 2], [0, 1], 12 if quick else 30) for _ in range(nr)], "mixed-random-3-main"))
     # two concurrent calls under line-granular schedules (sys.settrace turn taking), then the exits one at a time
     for m in (0, 1):
-        groups.append((3 + m, False, 4, [random_scenario(rng, m) for _ in range(300 if quick else 4000)], "concurrent-pair-line-schedules"))
+        groups.append((3 + m, False, 4, [random_scenario(rng, m) for _ in range(300 if quick else 4000)], "concurrent-pair-schedules"))
+        groups.append((3 + m, False, 4, systematic_scenarios(m), "concurrent-pair-bytecode-sweep"))
     return groups
 
 
@@ -1036,14 +1242,14 @@ def hist_from_json(j):
 
 
 def scenario_to_json(sc):
-    setup, opA, opB, post, schedule = sc
+    setup, opA, opB, post, schedule = sc[:5]
     return {"setup": hist_to_json(setup), "a": hist_to_json([opA])[0], "b": hist_to_json([opB])[0],
-            "post": hist_to_json(post), "schedule": list(schedule)}
+            "post": hist_to_json(post), "schedule": list(schedule), "granularity": sc[5] if len(sc) > 5 else "line"}
 
 
 def scenario_from_json(j):
     return (hist_from_json(j["setup"]), hist_from_json([j["a"]])[0], hist_from_json([j["b"]])[0],
-            hist_from_json(j["post"]), tuple(int(x) for x in j["schedule"]))
+            hist_from_json(j["post"]), tuple(int(x) for x in j["schedule"]), j.get("granularity", "line"))
 
 
 ENTRY = {0: "tensorly.set_backend/backend_context", 1: "tensorly.tenalg.set_backend/backend_context",
@@ -1108,6 +1314,25 @@ def run(chk):
     for (gi, k, extra) in extras[::max(1, len(extras) // 4)]:
         if extra:
             chk.sample(extra[1])
+    # the programs extracted from the source of both manager classes
+    src_ids = {}
+    try:
+        import tensorly as tl
+        from tensorly.tenalg import TenalgBackendManager
+        for m, cls in ((0, type(tl.backend)), (1, TenalgBackendManager)):
+            try:
+                progs = source_programs(cls)
+            except Unsupported as e:
+                chk.notes.append(f"source programs of {cls.__name__}: shape not understood by the translator, skipped ({e})")
+                chk.hist("group", ["backend:", "tenalg:"][m] + "source-programs-skipped")
+                continue
+            src_ids[len(cases)] = (m, progs)
+            cases.append(f"({len(cases)}, {pack([4] + program_digits(progs))})")
+            meta.append(None)
+            chk.count(key=("source-programs", m), nontrivial=True)
+            chk.hist("group", ["backend:", "tenalg:"][m] + "source-programs")
+    except Exception as e:  # noqa
+        chk.notes.append(f"source programs: extraction failed, skipped ({e!r})")
     t1 = time.time()
     failing, n_eval, broken = C.run_case_shards("C17", HEADER, "case", cases, shard=2500, timeout=900)
     # a shard killed by the shell timeout (overloaded machine) is "not evaluated", never an alarm: its cases are
@@ -1121,6 +1346,15 @@ def run(chk):
             chk.broken.append({"what": "correspondence corr:C17 comparator did not flag an altered observation (sentinel)", "detail": cases[sid][:200]})
         failing.discard(sid)
     n_eval -= len(sentinels) if not (broken or timed_out) else 0
+    try:
+        import tensorly as tl
+        static = sorted(a for a in getattr(tl.backend, "_attributes", []) if a in vars(tl) and a not in getattr(tl.backend, "_functions", []))
+        if static:
+            chk.notes.append("tensorly/__init__.py binds these dispatched ATTRIBUTES statically at import, so tensorly.<name> does not follow the "
+                             "backend (tensorly.backend.<name> does): " + ", ".join(static) + ". Not judged: C17 speaks of dispatched functions "
+                             "(see build/fix_candidates/C17_static_attributes.md)")
+    except Exception:
+        pass
     chk.checker_cmds.append("coqc (vm_compute) on generated build/cases/C17/*.v: Corr.C17.failing")
     chk.cov["traces_validated_against_impl"] = n_eval
     chk.cov["exhaustive"] = True
@@ -1133,13 +1367,23 @@ def run(chk):
                        "OTHER manager), four instances of two harness backend classes, two non-instances. BOTH managers in one history: every history of length 2 "
                        "(thorough: 3 over two workers) over {main, worker} x {backend, tenalg} x {instance, unknown name}, random histories to length 12 (30) over "
                        "three threads incl. main, every thread observing both managers. Concurrent pairs: two calls (set / enter / exit) of threads 1 and 2 "
-                       "interleaved at source-line granularity by sys.settrace turn taking (300 random scenario x schedule per manager, thorough 4000), "
+                       "interleaved at source-line granularity or (every second scenario) at BYTECODE granularity (f_trace_opcodes) by sys.settrace turn taking "
+                       "(300 random scenario x schedule per manager, thorough 4000; plus a systematic sweep: 4 canonical pairs of non-local calls x one thread "
+                       "stopped after k = 0..59 bytecodes), "
                        "outcome compared with the set of outcomes of all sequential orders of their blocks (conclusion of C17_micro_atomic). After EVERY operation EVERY thread reports get_backend() and the identity "
-                       "of the object executing a dispatched call. Non-trivial = at least two threads act and a context is entered; distinct key = (mode, "
+                       "of the object executing a dispatched call. Source programs: the acts of set_backend / backend_context / current_backend are extracted from the "
+                       "current source (ast) for both manager classes and checked in Coq (effect-point discipline, block equivalence with the model's programs "
+                       "on 18 states each). Non-trivial = at least two threads act and a context is entered; distinct key = (mode, "
                        "main-thread role, history). At most 40 disagreeing cases per shard of 2500 are listed")
     for b in broken:
         chk.broken.append({"what": "correspondence corr:C17 shard not evaluated", "detail": b})
     for i in sorted(failing):
+        if i in src_ids:
+            m, progs = src_ids[i]
+            chk.disagreement("corr:C17 source programs (acts extracted from the source of set_backend / backend_context break the effect-point "
+                             "discipline of C17_micro_atomic or differ from the model's programs as blocks)",
+                             {"manager": "tensorly.tenalg" if m else "tensorly.backend", "programs [set, enter, exit, exit-by-exception] x [global, local]": progs})
+            continue
         mode, main_actor, nthreads, h, tag = meta[i]
         if mode >= 3:
             chk.disagreement("corr:C17 micro (outcome of two concurrent calls under a line-granular schedule is not that of any sequential order of their blocks)",
